@@ -2,7 +2,6 @@ package c14
 
 import (
 	"encoding/base64"
-	"errors"
 	"fmt"
 	"sort"
 	"strconv"
@@ -370,35 +369,28 @@ func readNodes(s string) ([]node, string, error) {
 
 // ---------------------------------------------------------------- running the real parser
 
+// errClass maps a parser error to the model's error kinds by its message (the
+// sentinel texts of parser.go), so that renaming the exported error variables
+// does not break the harness.
 func errClass(err error) string {
-	switch {
-	case errors.Is(err, pwire.ErrMaxDepth):
-		return "maxDepth"
-	case errors.Is(err, pwire.ErrInvalidTag):
-		return "tag"
-	case errors.Is(err, pwire.ErrInvalidVarint):
-		return "varint"
-	case errors.Is(err, pwire.ErrInvalidFixed64):
-		return "fixed64"
-	case errors.Is(err, pwire.ErrInvalidFixed32):
-		return "fixed32"
-	case errors.Is(err, pwire.ErrInvalidLength):
-		return "length"
-	case errors.Is(err, pwire.ErrUnexpectedEndGroup):
-		return "endGroup"
-	case errors.Is(err, pwire.ErrUnexpectedEnd):
-		return "unexpectedEnd"
-	}
 	m := err.Error()
-	switch {
-	case strings.Contains(m, "mismatched end group"):
-		return "mismatch"
-	case strings.Contains(m, "unsupported packed element wire type"):
-		return "packedType"
-	case strings.Contains(m, "PackedElementType not configured"):
-		return "packedCfg"
-	case strings.Contains(m, "unsupported wire type"):
-		return "wireType"
+	for _, k := range []struct{ text, class string }{
+		{"maximum recursion depth exceeded", "maxDepth"},
+		{"invalid tag", "tag"},
+		{"invalid varint encoding", "varint"},
+		{"invalid fixed64 encoding", "fixed64"},
+		{"invalid fixed32 encoding", "fixed32"},
+		{"invalid length-delimited encoding", "length"},
+		{"unexpected end group", "endGroup"},
+		{"unexpected end of data", "unexpectedEnd"},
+		{"mismatched end group", "mismatch"},
+		{"unsupported packed element wire type", "packedType"},
+		{"PackedElementType not configured", "packedCfg"},
+		{"unsupported wire type", "wireType"},
+	} {
+		if strings.Contains(m, k.text) {
+			return k.class
+		}
 	}
 	return "other:" + m
 }
@@ -650,7 +642,7 @@ func (r *runner) wirePrims() {
 		r.onePrim([]byte{0xff, 0xff, 0xff, 0xff, 0xff, 0xff, 0xff, 0xff, 0xff, byte(last)})
 		r.onePrim([]byte{0x80, 0x80, 0x80, 0x80, 0x80, 0x80, 0x80, 0x80, 0x80, byte(last), 0x01})
 	}
-	n := c.N(2000, 40000)
+	n := c.N(2000, 400000)
 	for i := 0; i < n; i++ {
 		l := 1 + c.Rand.Intn(12)
 		b := make([]byte, l)
@@ -908,7 +900,7 @@ func (r *runner) wireParser() {
 		}
 	}
 	// seeded trees, and mutants of their encodings
-	n := c.N(4000, 80000)
+	n := c.N(4000, 400000)
 	for i := 0; i < n; i++ {
 		o := r.genOpts()
 		depth := c.Rand.Intn(5)
@@ -937,7 +929,7 @@ func (r *runner) wireParser() {
 		}
 	}
 	// pure noise
-	n = c.N(1000, 20000)
+	n = c.N(1000, 200000)
 	for i := 0; i < n; i++ {
 		l := c.Rand.Intn(24)
 		b := make([]byte, l)
